@@ -67,7 +67,13 @@ def shard(seed, specs):
     rnd = random.Random(seed)
     cases, expect, stats = [], [], []
     for source, nsym in specs:
-        cmds = gen(rnd, source, nsym)
+        if source == 'every-distance-and-length':
+            # each of the 4096 distances and each of the 58 copy lengths at least once, in one stream
+            cmds = [('L', (i * 29) & 0xff) for i in range(200)] + [('C', 200, 60)] * 70
+            cmds += [('C', d, 3 + (d % 58)) for d in range(1, 4097)] + [('C', 1 + (n * 71) % 4096, n) for n in range(3, 61)]
+            nsym = len(cmds)
+        else:
+            cmds = gen(rnd, source, nsym)
         stream, st = lzhuf.encode(cmds, pad_bit=rnd.randrange(2))
         exp = expand(cmds)
         st['source'] = source
@@ -117,7 +123,7 @@ def run(ctx):
         nshort = 6000
     specs = [(SOURCES[i % len(SOURCES)], rnd.choice([per, per // 2, per + 777])) for i in range(nshort)]
     # tiny directed streams: every literal and every copy length as the very first symbol (code of the initial tree)
-    tiny = [('uniform314', n) for n in (1, 2, 3, 12, 313, 314, 700)] * 2
+    tiny = [('uniform314', n) for n in (1, 2, 3, 12, 313, 314, 700)] * 2 + [('every-distance-and-length', 0)]
     chunks = [specs[i::14] for i in range(14)]
     for i, ch in enumerate(chunks):
         args.append((ctx.seed * 1009 + i, ch + (tiny if i == 0 else [])))
